@@ -11,6 +11,7 @@ import itertools
 from mc import canon, charts, core, fileio
 
 ID = "C15"
+LARGE = "chart of 300 notes under five fixed permutations of every list (reversed, rotated, evens-then-odds, stride 7, last-first)"
 TITLE = "A chart is a set of timed objects: results do not depend on row order"
 RULE = (
     "permutation enumeration: a state is a distinct (game, row permutation of every list, label mode); a transition is one library "
